@@ -5,6 +5,7 @@ import json
 from fractions import Fraction
 
 from .. import lib
+from .. import c17_prog
 
 PROP = "C17"
 PROP_FILE = "Props/C17.v"
@@ -132,12 +133,22 @@ def tie(tier, seed, replay):
     binary, out = lib.ds_driver_build()
     if binary is None:
         raise lib.Infra("ds_driver does not build against /repo:\n" + out[-3000:])
+    pmism, pstats = [], None
     if replay:
         cases = [json.load(open(replay))["case"]]
+        if cases[0].get("family") == "prog":
+            pmism, pstats = c17_prog.replay(cases[0])
+            cases = []
     else:
         corpus = [json.loads(l) for l in open(lib.VERIF + "/corpus/C17.jsonl")] if lib.os.path.exists(lib.VERIF + "/corpus/C17.jsonl") else []
-        cases = corpus + gen_cases(tier, seed)
-    impl_lines = lib.ds_run(binary, "agg", [case_line(c) for c in cases])
+        cases = [c for c in corpus if c.get("family") != "prog"] + gen_cases(tier, seed)
+        pcorpus = [c for c in corpus if c.get("family") == "prog"]
+        extra = [dict(id="corpus%d" % i, macro=c["macro"], rules=c["rules"], inputs=[(c.get("input_name", "corpus"), {k: [tuple(t) for t in v] for k, v in c["input"].items()})])
+                 for i, c in enumerate(pcorpus)]
+        # program level: the aggregators through `agg` items of compiled ascent! / ascent_par! programs (gen/c17_prog.py)
+        progs = c17_prog.gen_programs(tier, seed)
+        pmism, pstats = c17_prog.run(extra + progs, c17_prog.base_inputs(lib.rng_for(seed, PROP, "proginputs"), tier))
+    impl_lines = lib.ds_run(binary, "agg", [case_line(c) for c in cases]) if cases else []
     impl = [parse_impl(c, l) for c, l in zip(cases, impl_lines)]
     exprs = [coq_expr(c, h if h else (0, None)) for c, (_, h) in zip(cases, impl)]
     model = [canon_model(c, v) for c, v in zip(cases, lib.coq_eval(PROP, PRELUDE, exprs))]
@@ -157,12 +168,20 @@ def tie(tier, seed, replay):
     for c in cases:
         b = min(len(c["vals"]), 8)
         lens[b] = lens.get(b, 0) + 1
-    return dict(evaluations=len(cases), distinct_nontrivial=len(seen),
-                rule="exhaustive lists over {-2..2} up to length 4 (quick) / 5 (thorough) for min/max/sum/mean; percentile: lists over {0,1,2} x 12 dyadic p incl. 0 and 100; random long lists; count/not under 4 iterator shapes (size hints); non-trivial = non-empty input; distinct = distinct (aggregator, p, iterator kind, list)",
-                samples=[dict(case=c, impl=i[0], model=m) for c, i, m in list(zip(cases, impl, model))[:3] + list(zip(cases, impl, model))[-3:]],
-                distribution=dict(by_aggregator=dist, by_input_length_capped_8=lens, percentile_ps=["%d/%d" % p for p in PS]),
+    mism += pmism
+    pst = pstats or dict(evaluations=0, distinct_nontrivial=0, samples=[])
+    psamples = pst.pop("samples", [])
+    return dict(evaluations=len(cases) + pst["evaluations"], distinct_nontrivial=len(seen) + pst["distinct_nontrivial"],
+                rule="function level: exhaustive lists over {-2..2} up to length 4 (quick) / 5 (thorough) for min/max/sum/mean; percentile: lists over {0,1,2} x 12 dyadic p incl. 0 and 100; random long lists; count/not under 4 iterator shapes (size hints); non-trivial = non-empty input; distinct = distinct (aggregator, p, iterator kind, list). "
+                     "Program level (gen/c17_prog.py): every aggregator and `!rel(..)` in `agg` items of compiled ascent! / ascent_par! rules with 0-5 body clauses, aggregate first / middle / last, "
+                     "key = bound variable / constant / expression / wildcard, aggregated relation unary / binary / ternary projection, a recursive family; inputs: base, base with each relation emptied in turn, "
+                     "all aggregated relations empty, foreign keys only, singletons, all empty, random; one evaluation = (rule, input), compared with the python definition oracle and with "
+                     "Agg/AggClauseModel.v agg_clause on every (aggregator, key pattern, rows) asked; non-trivial = the aggregate is evaluated for at least one binding; distinct = distinct (macro, rule text, input)",
+                samples=[dict(case=c, impl=i[0], model=m) for c, i, m in list(zip(cases, impl, model))[:3] + list(zip(cases, impl, model))[-2:]] + psamples,
+                distribution=dict(by_aggregator=dist, by_input_length_capped_8=lens, percentile_ps=["%d/%d" % p for p in PS], program_level=pst),
                 mismatches=mism,
                 trusted_base=["ds_driver (Rust) + gen/props/c17.py renderers and the python definition oracle",
+                              "program level: gen/c17_prog.py (program renderer, naive rule evaluator, definition oracle), gen/prog.py, rustc; the rule-level semantics around the agg item (joins, strata) is C04's subject, here only the oracle's naive evaluation",
                               "Iterator::size_hint contract of the Rust standard library (count's shortcut): hint_ok in Agg/AggLaws.v",
                               "sum: no overflow of the column type (stated precondition); mean/percentile: f64 arithmetic exact on the small integers / dyadic p used"],
                 assumptions=["values are modelled as unbounded Z; overflow of N in sum is outside the property's statement",
